@@ -353,6 +353,37 @@ let run_case (line : string) =
        | AServed v -> "served" ^ string_of_int (int_of_nat v)
        | ANotFound v -> "notfound" ^ string_of_int (int_of_nat v)
        | ABuildErr -> "builderr" | ANoSet -> "noset") ans))
+   | ["xtpl"; ap; kws; files] ->
+     let ap = str_of_field ap in
+     let kws = List.map (fun k -> match String.split_on_char ':' k with
+         | [nm; c; i; i2] -> { kw_name = str_of_field nm; kw_ctxt = nat_of_int (int_of_string c); kw_id = nat_of_int (int_of_string i); kw_id2 = nat_of_int (int_of_string i2) }
+         | _ -> failwith "kw") (split '|' kws) in
+     let files = List.map (fun f -> match String.split_on_char '~' f with
+         | [nm; src] -> (nm, str_of_field nm, str_of_field src) | _ -> failwith "file") (split '|' files) in
+     let dflt_tags = List.map str_of_ascii ["script"; "style"; "textarea"; "title"] in
+     let dflt_voids = List.map str_of_ascii ["!doctype"; "area"; "base"; "br"; "col"; "embed"; "hr"; "img"; "input"; "link"; "meta"; "source"; "track"; "wbr"] in
+     let tbl : (string, (n list * n list * n list * string list ref)) Hashtbl.t = Hashtbl.create 16 in
+     let order = ref [] in
+     let failed = ref false in
+     List.iter (fun (_, nm, src) ->
+       match load is_space to_lower dflt_tags dflt_voids ap parse_ok src with
+       | Inr _ -> failed := true
+       | Inl root ->
+         let ents = extract_node is_letter is_udigit ap (nat_of_int 300) kws root in
+         List.iter (fun e ->
+           let key = dots e.en_ctxt ^ "|" ^ dots e.en_id in
+           let r = Printf.sprintf "%s:%d:%d" (String.concat "" (List.map (fun c -> String.make 1 (Char.chr (int_of_n c))) nm)) (int_of_n e.en_line) (int_of_n e.en_col) in
+           match Hashtbl.find_opt tbl key with
+           | Some (_, _, _, refs) -> refs := r :: !refs
+           | None -> Hashtbl.replace tbl key (e.en_ctxt, e.en_id, e.en_id2, ref [r]); order := key :: !order) ents) files;
+     if !failed then add "ERR xtpl failed"
+     else begin
+       let enc s = if s = [] then "-" else String.concat "," (List.map (fun c -> string_of_int (int_of_n c)) s) in
+       let lines = List.map (fun key ->
+         let (c, i, p, refs) = Hashtbl.find tbl key in
+         Printf.sprintf "(%s|%s|%s|%s)" (enc c) (enc i) (enc p) (String.concat "," (List.sort compare !refs))) !order in
+       add ("OK header " ^ String.concat "" (List.sort compare lines))
+     end
    | ["parse"; src] ->
      (match parse_code is_letter is_udigit (str_of_field src) with
       | Some e -> add "OK "; p_expr e
